@@ -21,6 +21,8 @@ class C06Spec(explore.Spec):
                 out.append({"version": v, "persistence": fmt, "cb": None})
             # a smart-sleep node with a parked reply while saves, id requests and restarts happen (own, shallower config)
             out.append({"version": "2.2", "persistence": fmt, "cb": None, "sleeper": True, "depth": 4 if tier == "quick" else 6})
+        # the persistence file named without a directory part (the library's default is 'mysensors.pickle')
+        out.append({"version": "2.2", "persistence": "pickle", "cb": None, "relpath": True, "depth": 4 if tier == "quick" else 6})
         return out
 
     def alphabet(self, cfg):
@@ -317,6 +319,9 @@ class AsyncRestartWorld:
     def enabled(self, ev):
         if ev[0] == "exec":
             return len(self.loop.executor_jobs) > ev[1]
+        if ev[0] == "execfail":
+            # only a save can fail this way (the load reads a file, it does not iterate over live state)
+            return len(self.loop.executor_jobs) > ev[1] and "save" in getattr(self.loop.executor_jobs[ev[1]][1], "__name__", "")
         if ev[0] == "timer":
             return bool(self.loop.pending_timers())
         # the application awaits start_persistence() before it starts the gateway (README): no traffic, and no
@@ -351,6 +356,10 @@ class AsyncRestartWorld:
                     obs.sent.append((reply, ev))
             elif ev[0] == "exec":
                 self.loop.complete_executor(ev[1])
+            elif ev[0] == "execfail":
+                # the job (a load or a save) fails with something that is not an OSError: the serialiser noticing that
+                # the network changed while it was being written
+                self.loop.complete_executor(ev[1], exc=RuntimeError("dictionary changed size during iteration"), run=False)
             elif ev[0] == "timer":
                 self.loop.fire_next_timer()
             elif ev[0] == "start":
@@ -468,7 +477,7 @@ class C06AsyncSpec(explore.Spec):
         return AsyncRestartWorld(cfg)
 
     def alphabet(self, cfg):
-        return [("exec", 0), alpha.rx("255;255;3;0;3;"), ("exec", 1), ("timer",), ("restart",), alpha.rx("1;255;3;0;0;57"), ("start",), ("conn-ok",), ("lost",)]
+        return [("exec", 0), alpha.rx("255;255;3;0;3;"), ("exec", 1), ("timer",), ("restart",), alpha.rx("1;255;3;0;0;57"), ("start",), ("conn-ok",), ("lost",), ("execfail", 0)]
 
     def new_monitor(self, cfg):
         return IdHistoryMonitor()
